@@ -163,7 +163,15 @@ func (t *trio) send(ep string, lr lreq, acceptedStatus int) result {
 	}
 	switch ep {
 	case "grpc":
-		er := t.Envoy.Check(lr.Method, "http", host, target, hdr, lr.Body, nil)
+		body, raw := lr.Body, []byte(nil)
+		if hdr["X-Verif-Rawbody"] != "" { // harness-only marker: use the raw_body field instead of body
+			delete(hdr, "X-Verif-Rawbody")
+			body, raw = "", []byte(lr.Body)
+		}
+		for k, v := range hdr { // envoy hands repeated header lines over as one comma separated value
+			hdr[k] = strings.ReplaceAll(v, "\n", ",")
+		}
+		er := t.Envoy.Check(lr.Method, "http", host, target, hdr, body, raw)
 		if er.RPCErr != "" {
 			res.Transport = er.RPCErr
 			// a gRPC error status is a non-success answer of the service
@@ -191,10 +199,13 @@ func (t *trio) send(ep string, lr lreq, acceptedStatus int) result {
 			res.Transport = err.Error()
 			break
 		}
-		req.URL.Opaque = "//" + a.Addr() + target // send the raw target byte-exact
+		req.URL.Opaque = target // origin-form request target, sent byte-exact; Host header = logical host
 		req.Host = host
 		for k, v := range hdr {
-			req.Header.Set(k, v)
+			// "\n" separates the values of a header sent as several header lines
+			for _, line := range strings.Split(v, "\n") {
+				req.Header.Add(k, line)
+			}
 		}
 		resp, err := t.HTTP.Do(req)
 		if err != nil {
